@@ -87,11 +87,23 @@ def emit_tla(schema: dict, dest: Path) -> None:
     lines.append(",\n".join(f'  [id |-> {i}, name |-> "{n}", source |-> "{s}"]' for i, n, s in rows))
     lines.append(">>")
     en = []
+    import os as _os
+
     for name, vals in sorted(schema["enums"].items()):
-        vs = ", ".join(f'[n |-> "{k}", v |-> {v}]' for k, v in vals.items())
+        # value names carry the enum's name as a prefix (LOCK_STATE_LOCKED): `s` is the name without it
+        pre = _os.path.commonprefix(list(vals)) if len(vals) > 1 else ""
+        pre = pre[: pre.rfind("_") + 1] if "_" in pre else ""
+        vs = ", ".join(f'[n |-> "{k}", s |-> "{k[len(pre):]}", v |-> {v}]' for k, v in vals.items())
         en.append(f'  [name |-> "{name}", values |-> <<{vs}>>]')
     lines.append("ProtoEnums == <<")
     lines.append(",\n".join(en))
+    lines.append(">>")
+    mf = []
+    for m in schema["messages"].values():
+        fs = ", ".join(f'[name |-> "{f["name"]}", type |-> "{f["type"]}", label |-> "{f["label"]}"]' for f in m["fields"])
+        mf.append(f'  [msg |-> "{m["name"]}", fields |-> <<{fs}>>]')
+    lines.append("ProtoMsgFields == <<")
+    lines.append(",\n".join(mf))
     lines.append(">>")
     lines.append("=============================================================================")
     dest.parent.mkdir(parents=True, exist_ok=True)
